@@ -372,3 +372,12 @@ Theorem C12_tie_gen_invariant : forall m s,
 Proof. exact gen_invariant. Qed.
 Print Assumptions C12_tie_gen_invariant.
 
+
+(* non-vacuity of C12_sender_fifo_trace with a non-empty `pre` (QA audit 2, 2.1): two blocked senders, a receive in
+   between; the instance of the theorem's conclusion is stated explicitly *)
+Theorem C12_sender_fifo_trace_nonvacuous :
+  let s := final step (init (Fin 0)) [Send 1 0 1; Resume 1; Send 2 0 2; Resume 2; RecvNowait 3 1] in
+  reach (Fin 0) s /\ senders s = [(1, 2)] /\ senq s = [0] ++ 1 :: [] /\ returned s = [1] /\
+  (forall e', In e' [0] -> ~ In e' (map fst (senders s))) /\ subseq (map fst (@nil (eid * item))) (@nil eid).
+Proof. exact ex_sender_fifo_trace_nonempty_pre. Qed.
+Print Assumptions C12_sender_fifo_trace_nonvacuous.
